@@ -61,6 +61,19 @@ func (pc *parentController) callHook(
 		return nil, nil
 	}
 
+	// The rest of the sync dereferences every child and, for rolling updates, writes
+	// conditions into the status: drop null children, tolerate a missing status.
+	children := response.Children[:0]
+	for _, child := range response.Children {
+		if child != nil {
+			children = append(children, child)
+		}
+	}
+	response.Children = children
+	if response.Status == nil {
+		response.Status = make(map[string]interface{})
+	}
+
 	for _, child := range response.Children {
 		if child != nil && child.GetNamespace() == "" {
 			child.SetNamespace(parent.GetNamespace())
